@@ -31,6 +31,12 @@ class StatefulMixin:
             return ['seen', seen, len(values)]
         if ending == 'raise':
             raise CustomError('state-raise', len(values))
+        if ending == 'return-linger':
+            # the work is done and reported, but the child process stays around for a while (a non-daemon thread left behind)
+            import threading
+            import time
+            threading.Thread(target=time.sleep, args=(3,)).start()
+            return ['seen', seen, len(values)]
         if ending == 'return-unpicklable':
             # the work succeeded but its result cannot be sent: the child still ends by itself and reports (a failure)
             import threading
